@@ -478,6 +478,10 @@ class Builder:
                     out += [("x", t) for t in _EXT_RAISES[nm]]
             elif nm.startswith("super(") and meth in ("error",):
                 pass
+        elif cal.kind == "unknown" and isinstance(call.func, ast.Attribute) and self._is_user_value(call.func.value):
+            # a method of an object the user handed in
+            n.user = True
+            out.append(("x", (EXCEPTION, False)))
         return out
 
     def await_raises(self, n: Node, aw: ast.Await) -> List[Tuple[str, ExcTok]]:
@@ -808,6 +812,10 @@ class Builder:
                 self.loop_stack.pop()
                 self.edge(head, body, T)
                 self.edge(head, k, F)
+                if any(self._iter_is_user(g_.iter) for g_ in it.node.generators):
+                    # drawing from an iterable the user handed in runs user code
+                    head.user = True
+                    self.add_raises(head, ctx, [("x", (EXCEPTION, False))])
                 k = head
                 continue
             e = it.node
@@ -857,10 +865,37 @@ class Builder:
             return False
         return None
 
+    def _is_user_value(self, e: ast.AST, _depth: int = 0) -> bool:
+        """A value the user handed in, of which the package knows nothing (typed Any / object, or an un-annotated parameter):
+        iterating it or calling a method on it runs user code and may raise (TypeError / AttributeError at the least)."""
+        e = strip_cast(e)
+        if isinstance(e, ast.Name) and e.id in self.sc.params and not self.sc.defs.get(e.id):
+            p = self.sc.params[e.id]
+            a = self.f.node.args
+            if p is a.vararg or p is a.kwarg or e.id == self.sc.selfname:
+                return False
+            if self.env is not None and e.id in self.env and _depth < 6:
+                caller, arg, cenv = self.env[e.id]
+                frame = self._frame()
+                self.f, self.sc, self.env = caller, self.an.scope(caller), cenv
+                try:
+                    return self._is_user_value(arg, _depth + 1)
+                finally:
+                    self._restore(frame)
+            if p.annotation is None:
+                return True
+        try:
+            t = self.sc.ty(e)
+        except Exception:
+            t = None
+        return t is not None and t.head in ("Any", "object", "UserValue")
+
     def _iter_is_user(self, it: ast.AST) -> bool:
         e = it
         while isinstance(e, ast.Call) and isinstance(e.func, ast.Name) and e.func.id in ("enumerate", "iter", "reversed", "zip") and e.args:
             e = e.args[0]
+        if self._is_user_value(e):
+            return True
         if isinstance(e, ast.Name) and e.id in self.sc.params:
             p = self.sc.params[e.id]
             a = self.f.node.args
